@@ -9,7 +9,7 @@ PROP = "C15"
 def cases(tier, seed):
     out = []
     if tier == "quick":
-        N, G, ns_nth, ns_ht = 4, 2, range(-3, 5), range(0, 4)
+        N, G, ns_nth, ns_ht = 4, 2, range(-5, 6), range(0, 6)          # n up to beyond the largest possible group
     else:
         N, G, ns_nth, ns_ht = 7, 3, range(-8, 9), range(0, 9)
     for mk in ("none", "bool_sym"):
@@ -46,7 +46,7 @@ def validate(E, seed, tier):
 
 
 META = {
-    "bounds": {"quick": {"N": 4, "G": 2, "n_nth": "-3..4", "n_head_tail": "0..3", "inductive": "row index and counts < 2^40, G=2"},
+    "bounds": {"quick": {"N": 4, "G": 2, "n_nth": "-5..5", "n_head_tail": "0..5", "inductive": "row index and counts < 2^40, G=2"},
                "thorough": {"N": 7, "G": 3, "n_nth": "-8..8", "n_head_tail": "0..8", "inductive": "row index and counts < 2^40, G=3"}},
     "enumerated": ["n", "mask present or not"],
     "symbolic": ["group codes", "boolean mask bits", "inductive step: row index, per-group visit counts, n, the row's code and mask bit"],
